@@ -74,6 +74,7 @@ func init() {
 	reg("C05", []string{"beh"}, "accepted input whose derivation tree has at least two non-empty nodes")
 	reg("C06", []string{"beh"}, "some (rule, offset) pair is entered more than once by the naive evaluation")
 	reg("C07", []string{"beh"}, "every case (verdict and eager trace are compared on all of them)")
+	reg("C08", []string{"static", "beh"}, "the option sets yield at least two different outputs for the grammar (static suite) / the variant's code differs from the plain parser's (behaviour suite, which also compiles the file)")
 	reg("C11", []string{"beh"}, "rejected input with a non-empty furthest token")
 	reg("C13", []string{"beh"}, "input over the hostile byte alphabet (invalid UTF-8, NUL, non-BMP, U+10FFFF)")
 }
